@@ -126,17 +126,30 @@ Definition bad_verdict : verdict :=
      v_obs := false; v_madctl := false; v_one_window := false; v_nondraw_clean := false;
      v_sleep_match := false; v_sleep_delay := false; v_scroll := false; v_sleep_spacing := false; v_picture := false |}.
 
+Definition good_verdict : verdict :=
+  {| v_results_ok := true; v_framing := true; v_no_anomaly := true; v_writes := true; v_confined := true;
+     v_obs := true; v_madctl := true; v_one_window := true; v_nondraw_clean := true;
+     v_sleep_match := true; v_sleep_delay := true; v_scroll := true; v_sleep_spacing := true; v_picture := true |}.
+Definition is_init_err (r : res) : bool :=
+  match r with RErr (EInitInterface _) | RErr EInitResetPin => true | _ => false end.
+
 Definition judge (pc : pcase) (impl : pout) : verdict :=
   let '(r0, ev0, ob0, outs) := impl in
   match model_of_id (pc_model pc) with
   | None => bad_verdict
   | Some m =>
+      if (0 <=? pc_init_fail pc) && is_init_err r0 && (Z.of_nat (length (filter fallible ev0)) =? pc_init_fail pc + 1)
+         && (match outs with [] => true | _ => false end)
+      then good_verdict       (* the injected fault hit Builder::init, which reported it and stopped: no display to judge *)
+      else
       let opt := pc_opts pc in
       let p := panel_of opt in
       let enc := enc_of (m_color m) (word16_of_iface (pc_iface pc)) in
       let k0 := ctl_run (power_on (m_fw m) (m_fh m)) ev0 in
       let s0 := {| ws_ctl := k0; ws_o := o_orient opt; ws_sleeping := false; ws_exp_rev := [];
-                   ws_res := res_beq r0 ROk && (length outs =? length (pc_ops pc))%nat;
+                   ws_res := res_beq r0 ROk && (length outs =? length (pc_ops pc))%nat &&
+                             (* an init that returned Ok although the injected fault hit one of its calls swallowed an error *)
+                             ((pc_init_fail pc <? 0) || (Z.of_nat (length (filter fallible ev0)) <=? pc_init_fail pc));
                    ws_fr := true;
                    ws_obs := match ob0 with Some ob => obs_eqb ob (expected_obs p (o_orient opt) false) | None => false end;
                    ws_mad := k_madctl k0 =? spec_madctl (o_bgr opt) (o_orient opt) (o_btt opt) (o_rtl opt);
